@@ -9,6 +9,7 @@
 #include "myth/myth_spinlock.h"
 #include "myth_mem_barrier_func.h"
 #include "myth_config.h"
+#include "myth_verif.h"
 
 /* ----------- spin locks----------- */
 
@@ -28,6 +29,7 @@ static inline int myth_spin_lock_body(myth_spinlock_t *lock) {
   int failed = 0;
   while (!myth_spin_trylock_body(lock)) {
     failed++;
+    MYTH_VERIF_SPIN("spin.wait", lock);
   }
   return failed;
 }
@@ -37,6 +39,7 @@ static inline int myth_compare_and_set_int(volatile int * a, int oldv, int newv)
 }
 
 static inline int myth_spin_trylock_body(myth_spinlock_t *lock) {
+  MYTH_VERIF_POINT("spin.trylock", lock, 0);
   if (myth_compare_and_set_int(&lock->locked, 0, 1)) {
     myth_rwbarrier();
     return 1;
@@ -47,6 +50,7 @@ static inline int myth_spin_trylock_body(myth_spinlock_t *lock) {
 
 static inline int myth_spin_unlock_body(myth_spinlock_t *lock) {
   myth_rwbarrier();
+  MYTH_VERIF_POINT("spin.unlock", lock, 0);
   lock->locked = 0;
   return 0;
 }
